@@ -2,6 +2,9 @@
  * case lines as `extract/keys/oracle`:
  *     H <md> <ikm|*> <salt|*> <info|*> <L>       ("*" = setter not called, "-" = empty string set)
  *  -> H <rv> <len> <hex>                          (rv 0: success, *dstlenp = len)
+ *     HF <op> <k> <md> <ikm> <salt> <info> <L>    (with harness/mac_fault.c: the k-th call of mac_init/update/final/cleanup
+ *                                                  (op 0..3) made by this hkdf() fails)
+ *  -> HF <fired> H <rv> <len> <hex>
  * The destination is malloc'd at exactly L bytes, so ASan sees any write beyond the requested length. */
 #include "hexio.h"
 #include <errno.h>
@@ -12,6 +15,10 @@
 
 static char line[1 << 20];
 
+/* optional: harness/mac_fault.c ("HF <op> <k> <md> ..." cases) */
+__attribute__((weak)) void mac_fault_set (int op, int k);
+__attribute__((weak)) int mac_fault_fired (void);
+
 int main (void) {
     crypto_init ();
     md_init_subsystem ();
@@ -19,7 +26,14 @@ int main (void) {
         char *nl = strchr (line, '\n'); if (nl) *nl = 0;
         char op; int md; long L; char *t[8]; int nt = 0; char *save = NULL, *tok;
         for (tok = strtok_r (line, " ", &save); tok && nt < 8; tok = strtok_r (NULL, " ", &save)) t[nt++] = tok;
-        if (nt != 6 || strcmp (t[0], "H")) { printf ("? %s\n", nt ? t[0] : ""); continue; }
+        int faulty = 0;
+        if (nt == 8 && !strcmp (t[0], "HF") && mac_fault_set) {
+            int i;
+            mac_fault_set (atoi (t[1]), atoi (t[2]));
+            for (i = 1; i < 6; i++) t[i] = t[i + 2];
+            nt = 6; faulty = 1;
+        }
+        else if (nt != 6 || strcmp (t[0], "H")) { printf ("? %s\n", nt ? t[0] : ""); continue; }
         md = atoi (t[1]); L = atol (t[5]);
         {
             int ikmlen = 0, saltlen = 0, infolen = 0, rv = 0;
@@ -35,6 +49,7 @@ int main (void) {
             if (!rv && salt && hkdf_ctx_set_salt (h, salt, saltlen) < 0) rv = -1;
             if (!rv && info && hkdf_ctx_set_info (h, info, infolen) < 0) rv = -1;
             if (!rv) rv = hkdf (h, dst, &dstlen);
+            if (faulty) { printf ("HF %d ", mac_fault_fired ()); mac_fault_set (0, 0); }
             if (rv < 0) printf ("H 1 0 *\n");
             else { printf ("H 0 %zu ", dstlen); puthex (dst, (int) dstlen); printf ("\n"); }
             hkdf_ctx_destroy (h);
